@@ -418,9 +418,26 @@ def oracleUnpaired {F : Type} [FloatLike F] (conf : Confidence Float) (xs ys : L
     (impl : List (List String)) : List String × Nat :=
   match exactStats xs, exactStats ys with
   | some ea, some eb =>
-    if ea.n < 2 || eb.n < 2 || c.isNaN then ([], 1) else
+    if ea.n < 2 || eb.n < 2 then ([], 1) else
     let va := ea.variance; let vb := eb.variance
-    if va == 0.0 && vb == 0.0 then ([], 1) else
+    -- finite data whose squares leave the range of the data type: the sums overflow, the documented outcome is
+    -- InvalidInputData (never an interval)
+    let maxF : Float := if FloatLike.u F > 1e-10 then 3.4028234663852886e38 else 1.7976931348623157e308
+    if ea.sumSqF > maxF || eb.sumSqF > maxF then
+      (if (impl.take 7).all (fun g => g.take 2 == ["err", "InvalidInputData"]) then ([], 0)
+       else (["squares-overflow-but-not-InvalidInputData"], 0)) else
+    -- two constant samples: zero standard error, the interval is the point [d, d] whatever the quantile
+    if va == 0.0 && vb == 0.0 then
+      let d := ea.mean - eb.mean
+      let tol := 32.0 * FloatLike.u F * (ea.meanAbs + eb.meanAbs) + Float.scaleB 1.0 (-1060)
+      let bad := (impl.take 7).any fun g =>
+        match pImplInterval (F := F) g with
+        | some (.twoSided a b) => !(absF (FloatLike.toF64 a - d) ≤ tol && absF (FloatLike.toF64 b - d) ≤ tol)
+        | some (.upper a) => !(absF (FloatLike.toF64 a - d) ≤ tol)
+        | some (.lower b) => !(absF (FloatLike.toF64 b - d) ≤ tol)
+        | none => true
+      (if bad then ["constant-samples:expected-the-point-interval-at-the-difference"] else [], 0) else
+    if c.isNaN then ([], 1) else
     let u := FloatLike.u F
     let na := Float.ofNat ea.n; let nb := Float.ofNat eb.n
     -- the one-pass variances carry absolute errors of a few u·Σx²/(n−1) (their conditioning)
